@@ -17,9 +17,9 @@ type Loop struct {
 
 	// induction variable (at most one recognised)
 	IV       *ssa.Phi
-	Init     *Term        // initial value of the phi
-	Step     int64        // phi' = phi + Step
-	CondOp   token.Token  // comparison applied to (phi + TestOff) and Bound; body is entered when it holds
+	Init     *Term       // initial value of the phi
+	Step     int64       // phi' = phi + Step
+	CondOp   token.Token // comparison applied to (phi + TestOff) and Bound; body is entered when it holds
 	TestOff  int64
 	Bound    *Term
 	HasCond  bool
